@@ -139,8 +139,13 @@ def gen_lp(g: gen.Gen, r, kind):
             a = np.array([float(r.choice([1, 2, -1, 3])) + 0.5 * j for j in range(m)])[::-1]
         arrays.append((a, a.copy()))
         return a
-    style = r.randrange(8)
-    if style >= 6:
+    style = r.randrange(10)
+    if style >= 8:
+        # the objective is EXACTLY a weighted sum over a view that skips elements (every other one, a reversed stretch) while the
+        # skipped elements occur in the constraints: nothing but `c @ view`, no offset, no other term
+        w = r.choice([x[::2], x[1::2] if n >= 2 else x[::2], x[::-1], x[0:n:3] if n >= 3 else x[::2], x[n - 1::-2]])
+        obj = r.choice([lambda: arr(w.size) @ w, lambda: w @ arr(w.size)])()
+    elif style >= 6:
         # the constant written FIRST ("budget - cost @ x"), as the outermost node when no scalar term follows
         k0 = r.choice([10, 2.5, -4, 100])
         w = x if style == 6 else r.choice(vec_views(x, r))
@@ -220,6 +225,15 @@ def gen_lp(g: gen.Gen, r, kind):
         z = np.zeros(n)
         add(r.choice([lambda: z @ x >= 1, lambda: x[0] - x[0] >= 1, lambda: (x.sum() - x.sum()).eq(2), lambda: z @ x + 3 <= 1])())
         add(z @ x <= 1)
+    elif kind == "free_variables_rows_only":
+        # NO variable of the model carries a bound: the box is written as rows, and the optimum sits at negative values
+        extra.lb, extra.ub = None, None
+        add(x >= -2)
+        add(x <= 1.5)
+        if with_extra:
+            add(extra >= -3)
+            add(extra <= 2)
+        add(x.sum() + ex() >= -50)
     else:  # unbounded: a free direction that improves the objective
         add(x.sum() <= 10 if mx else x.sum() >= -10)
     return P, mx, ref, arrays
@@ -285,7 +299,8 @@ def run(rep: vk.Report):
     for i in range(n):
         r = random.Random(rng.random())
         g = gen.Gen(r, profile="poly", pool=gen.Pool(r, with_matrices=False))
-        kind = r.choice(["bounded", "bounded", "degenerate", "infeasible", "infeasible_bounds", "infeasible_zero_row", "unbounded"])
+        kind = r.choice(["bounded", "bounded", "degenerate", "infeasible", "infeasible_bounds", "infeasible_zero_row", "unbounded",
+                         "free_variables_rows_only"])
         P, mx, ref0, arrays = gen_lp(g, r, kind)
         if not (is_linear(P.objective) and all(is_linear(c.expr) for c in P.constraints)):
             continue
@@ -307,7 +322,7 @@ def run(rep: vk.Report):
         V = [v.name for v in P.variables]
         seam.add(f"({ser.lst(ser.s(nm) for nm in V)}, {tobj}, {'true' if mx else 'false'}, {ser.lst(tcons)}, "
                  f"({ql(call['c'])}, {qm(call['A_ub'])}, {ql(call['b_ub'])}, {qm(call['A_eq'])}, {ql(call['b_eq'])}), "
-                 f"{ser.lst('(' + oq(b[0]) + ', ' + oq(b[1]) + ')' for b in call['bounds'])}, "
+                 f"{ser.lst('(' + oq(b[0]) + ', ' + oq(b[1]) + ')' for b in (call['bounds'] or []))}, "
                  f"{ser.lst('(' + oq(v.lb) + ', ' + oq(v.ub) + ')' for v in P.variables)})",
                  {"kind": kind, "method": meth, "maximize": mx}, kinds={kind, meth, "max" if mx else "min"})
         keep.append(P)
